@@ -1150,6 +1150,10 @@ lyb_parse_node_opaq(struct lyd_lyb_ctx *lybctx, struct lyd_node *parent, struct 
     LY_CHECK_GOTO(ret, cleanup);
 
     if (!(lybctx->parse_opts & LYD_PARSE_OPAQ)) {
+        /* the node is not going to be created, free the parsed value prefix data */
+        ly_free_prefix_data(format, val_prefix_data);
+        val_prefix_data = NULL;
+
         /* skip children */
         ret = lyb_read_start_siblings(lybctx->lybctx);
         LY_CHECK_GOTO(ret, cleanup);
